@@ -173,8 +173,13 @@ def contained_types(ty):
     origin_ty = getattr(ty, "__origin__", ty)
     if not issubclass(origin_ty, ScalarType):
         inner_ty = getattr(ty, "__args__", None)
-        inner_ty = contained_types(inner_ty[0]) if inner_ty else T
-        return origin_ty.init_as_template_type(inner_ty)
+        if not inner_ty:
+            # A bare `Array` would be recorded with the type variable "T" as element type.
+            raise TypeError(
+                f"{origin_ty.__name__} parameter needs an element type, "
+                f"e.g. {origin_ty.__name__}[SecretInteger]"
+            )
+        return origin_ty.init_as_template_type(contained_types(inner_ty[0]))
     if origin_ty.mode == Mode.CONSTANT:
         return origin_ty(value=0)
     return origin_ty(child=None)
